@@ -4,6 +4,10 @@ import json, os
 ROOT = os.path.dirname(os.path.dirname(os.path.abspath(__file__)))
 TRUST = "TLC 1.8 and the CommunityModules Json/IOUtils; the Rust harness (vh) that drives the public API of /repo's crates; rustc/cargo"
 CHECKS = {
+ "C17": ("DESIGN.md section 6 C17",
+         "Codec.tla transcribes UTF-8, base64 and hex with integer arithmetic and defines the JSON normalisation on trees, so TLC is an independent oracle for the bytes and encoded texts: every text over an alphabet with NUL / control / 1-4-byte characters, boundary integers, 187 JSON documents and 90 property maps are replayed through string_to_bytes / base64_encode / base64_decode / bytes_to_string, hex_encode / hex_decode, json_parse --collection + json_encode --collection and map_to_properties + map_load_properties; random larger inputs are validated by TLC.",
+         "small-scope exhaustive on texts, sampled beyond; JSON lexical forms and properties escaping not transcribed (identity oracle only)",
+         "TLA+ spec + TLC exhaustive; spec->impl replay; impl->spec trace validation"),
  "C16": ("DESIGN.md section 6 C16",
          "Strings.tla (plain string operations over code-point sequences with a Unit parameter; relations: substring(s,0,indexof(s,t)) followed by t is a prefix of s, join(split(s,sep),sep) = s; numbers as scaled integers; integer expression trees; half-open range) model-checked over every text of a 5-class alphabet with multi-byte characters; the expected output of every command for every text / needle / index pair is replayed on the real SDK in the unit the real strlen reports; random Unicode cases are validated by TLC.",
          "small-scope exhaustive on texts (<=3 quick, <=4 thorough), sampled beyond; floating-point calc and full Unicode case mapping out of scope",
